@@ -246,6 +246,14 @@ def detect_ways(ctx, kind, sample, data, tmp):
         with open(fn2, "wb") as h:
             h.write(b"ID3\x04\x00\x00\x00\x00\x00\x0a" + b"\x00" * 10 + data)
         variants.append(("id3-prefixed ", fn2))
+    # a name that is legal on POSIX but not valid UTF-8 (str form with surrogate escapes, bytes form raw)
+    try:
+        fn3 = os.path.join(tmp, os.fsdecode(b"n\xe9\xff_") + sample.replace("+", "_"))
+        with open(fn3, "wb") as h:
+            h.write(data)
+        variants.append(("non-UTF-8-named ", fn3))
+    except (OSError, UnicodeError):
+        pass
 
     def outcome(thing):
         try:
